@@ -177,7 +177,7 @@ def inst (t : Ty) (v : Val) : Bool :=
   | .str => (match v with | .str _ => true | _ => false)
   | .bin => (match v with | .binary _ => true | _ => false)
   | .int r => (match v with | .int i => r.contains i | _ => false)
-  | .float lo hi => (match v with | .float f => decide (lo ≤ f) && decide (f ≤ hi) | _ => false)
+  | .float lo hi => (match v with | .float f => decide (Fl.effLo lo ≤ f) && decide (f ≤ Fl.effHi hi) | _ => false)
   | .bool b => (match v with | .bool x => b.isNone || b == some x | _ => false)
   | .tspan r => (match v with | .tspan n => r.contains n | _ => false)
   | .strSz r => (match v with | .str s => r.contains s.length | _ => false)
